@@ -85,6 +85,9 @@ func loadEnv(ctx context.Context, root string, init bool) (*env.DoltEnv, error) 
 func NewWorld(ctx context.Context, root string) (*World, error) {
 	w := &World{Root: root, nextCon: 1}
 	os.Setenv("DOLT_ROOT_PATH", root)
+	if left := dbfactory.DsimSingletonPaths(); len(left) > 0 {
+		fmt.Fprintf(os.Stderr, "dsim: databases left open by an earlier run of this process: %v\n", left)
+	}
 	dEnv, err := loadEnv(ctx, root, true)
 	if err != nil {
 		return nil, err
@@ -212,7 +215,12 @@ func (w *World) RestartAnyDB(ctx context.Context) error {
 	return w.startEngine(ctx)
 }
 
-func (s *Sess) End() { sql.SessionEnd(s.ds) }
+// End closes the session; a session whose statement never returned (a stuck run) refuses to end,
+// which must not keep the world from being torn down.
+func (s *Sess) End() {
+	defer func() { recover() }()
+	sql.SessionEnd(s.ds)
+}
 
 // Exec runs one statement to completion and returns its rows rendered as strings.
 func (s *Sess) Exec(ctx context.Context, q string) (rows [][]string, err error) {
